@@ -92,6 +92,41 @@ JudgeViews(e) ==
   \cup
   (IF Want("C05") THEN Chk("c05.insufficient", (e.insuf = 1) = Insufficient(b)) ELSE {})
 
+(* --------------- C06: the attack relation, enumerated ------------------ *)
+JudgeAttackRow(e) ==
+  LET s == e.sq n == Len(e.cases) IN
+  \* a full single-line enumeration has 2 * 2^n cases (own square empty / occupied)
+  (IF e.line \in 0..3 THEN Chk("c06.enumeration-incomplete", n = 2 * (2 ^ e.n)) ELSE {})
+  \cup UNION { LET c == e.cases[i] b == OccBoard(SeqToSet(c.occ)) IN
+                   Chk("c06.rook", SeqToSet(c.r) = Attacks(b, s, ROOK) /\ c.ra = c.r)
+              \cup Chk("c06.bishop", SeqToSet(c.b) = Attacks(b, s, BISHOP) /\ c.ba = c.b)
+              \cup Chk("c06.queen", SeqToSet(c.q) = Attacks(b, s, QUEEN) /\ c.qa = c.q)
+            : i \in 1..n }
+
+JudgeAttackTable(e) ==
+     Chk("c06.king", SeqToSet(e.king) = KingT[e.sq] /\ e.kinga = e.king)
+  \cup Chk("c06.knight", SeqToSet(e.knight) = KnightT[e.sq] /\ e.knighta = e.knight)
+  \cup Chk("c06.pawn", SeqToSet(e.wp) = PawnAttTo[0][e.sq] /\ SeqToSet(e.bp) = PawnAttTo[1][e.sq])
+
+JudgePawns(e) ==
+  LET P == SeqToSet(e.pawns) occ == SeqToSet(e.all) IN
+     Chk("c06.pawn-set", SeqToSet(e.wcap) = UNION { PawnAttTo[0][s] : s \in P } /\ SeqToSet(e.bcap) = UNION { PawnAttTo[1][s] : s \in P })
+  \cup Chk("c06.pawn-push", /\ SeqToSet(e.wmove) = { s + 8 : s \in { x \in P : x + 8 \in Sq } } \ occ
+                             /\ SeqToSet(e.bmove) = { s - 8 : s \in { x \in P : x - 8 \in Sq } } \ occ)
+
+\* derived queries on a position: who can capture on each square, who is pinned
+JudgeDerived(e) ==
+  LET pos == e.pos b == pos.b IN
+  IF ~WellFormed(pos) THEN {}
+  ELSE Chk("c06.capturers", \A c \in 0..1 : \A s \in Sq :
+              LET L == e.caps[c+1][s+1] IN
+              /\ { x[1] : x \in SeqToSet(L) } = Attackers(b, s, c)
+              /\ Len(L) = Cardinality(Attackers(b, s, c))
+              /\ \A i \in 1..Len(L) : L[i][2] = b[L[i][1]+1])
+    \cup Chk("c06.pins", \A i \in 1..Len(e.pins) :
+              LET p == e.pins[i] IN
+              { <<x[1], x[2], x[3]>> : x \in SeqToSet(p.res) } = Pins(b, p.side, p.kind) /\ Len(p.res) = Cardinality(Pins(b, p.side, p.kind)))
+
 (* --------------------- C02: a single move (tree mode) ------------------ *)
 JudgeMove(e) ==
   IF ~WellFormed(e.pre) \/ ToMv(e.m) \notin Legal(e.pre) THEN {}
@@ -214,6 +249,14 @@ Step(e) ==
          [bs |-> boards, recs |-> <<>>, reset |-> FALSE, fails |-> IF Want("C01") THEN JudgeGen(e) ELSE {}]
     [] e.op = "views" ->
          [bs |-> boards, recs |-> <<>>, reset |-> FALSE, fails |-> JudgeViews(e)]
+    [] e.op = "attackrow" ->
+         [bs |-> boards, recs |-> <<>>, reset |-> FALSE, fails |-> JudgeAttackRow(e)]
+    [] e.op = "attacktable" ->
+         [bs |-> boards, recs |-> <<>>, reset |-> FALSE, fails |-> JudgeAttackTable(e)]
+    [] e.op = "pawns" ->
+         [bs |-> boards, recs |-> <<>>, reset |-> FALSE, fails |-> JudgePawns(e)]
+    [] e.op = "derived" ->
+         [bs |-> boards, recs |-> <<>>, reset |-> FALSE, fails |-> IF Want("C06") THEN JudgeDerived(e) ELSE {}]
     [] e.op = "move" ->
          [bs |-> boards, recs |-> <<>>, reset |-> FALSE, fails |-> IF Want("C02") THEN JudgeMove(e) ELSE {}]
 
